@@ -148,7 +148,7 @@ def emit_tokens(label, pattern: str) -> list:
     """Tokens a task with this emit pattern makes visible (one per log/print/err step)."""
     out = []
     for i, step in enumerate(pattern.split('+')):
-        if step in ('log', 'warn', 'print', 'err', 'iprint', 'nprint', 'exc', 'wprint', 'eprint'):
+        if step in ('log', 'warn', 'print', 'err', 'iprint', 'nprint', 'exc', 'wprint', 'eprint', 'rprint'):
             out.append(f'<{label}.{i}>')
         elif step.startswith('burst'):
             out.extend(f'<{label}.{i}.{j}>' for j in range(int(step[5:])))
@@ -185,6 +185,15 @@ def _emit(task):
         elif step.startswith('burst'):
             for j in range(int(step[5:])):
                 logger.info(f'b<{task.label}.{i}.{j}>')
+        elif step == 'rprint':                      # a chunk that starts with a carriage return (progress redraw)
+            sys.stdout.write(f'\rout{tok}')
+        elif step == 'die':                         # the worker process is killed right here (SIGKILL / os._exit)
+            WORLD.rec('suicide', tkey(task))
+            if WORLD.child is not None:
+                WORLD.kill_hook()
+                raise ChildKilled()
+            import signal
+            os.kill(os.getpid(), signal.SIGKILL)
         elif step == 'flush':
             sys.stdout.flush()
         elif step == 'err':
@@ -353,6 +362,31 @@ TH = _mk('TH', bases=(_FilterMixin,))
 TJ = _mk('TJ', cache=JsonCache())
 T2 = _mk('T2', cache=labtech.cache.PickleCache(pickle_protocol=2))
 
-TYPES = {c.__name__: c for c in (TA, TB, TC, TD, TN, TM, TF, TP, TJ, T2, TG, TX, TH)}
-MAX_PARALLEL = {n: c._lt.max_parallel for n, c in TYPES.items()}
-CACHEABLE = {n: not isinstance(c._lt.cache, labtech.cache.NullCache) for n, c in TYPES.items()}
+TK = _mk('TK', cache=None, max_parallel=2)     # never cached *and* limited
+_SHARED_CACHE = labtech.cache.PickleCache()
+TC1 = _mk('TC1', max_parallel=2, cache=_SHARED_CACHE)   # two unrelated types with identical decorator
+TC2 = _mk('TC2', max_parallel=2, cache=_SHARED_CACHE)   # arguments (the very same cache object)
+
+
+def _mk_single_call(name: str, **opts):
+    """The documented single-call spelling labtech.task(cls, **options)."""
+    ns: dict[str, Any] = {
+        '__annotations__': {'label': int, **{f: Any for f in FIELDS}},
+        **{f: None for f in FIELDS},
+        'run': _run,
+        '__module__': __name__,
+        '__qualname__': name,
+    }
+    return labtech.task(type(name, (), ns), **opts)
+
+
+try:
+    TL = _mk_single_call('TL', max_parallel=1)
+except TypeError:            # a labtech.task() that does not accept this spelling
+    TL = _mk('TL', max_parallel=1)
+
+TYPES = {c.__name__: c for c in (TA, TB, TC, TD, TN, TM, TF, TP, TJ, T2, TG, TX, TH, TK, TC1, TC2, TL)}
+# the limits and cacheability the *declarations above* ask for - never read back from labtech
+MAX_PARALLEL = {'TA': None, 'TB': 1, 'TC': 2, 'TD': 3, 'TN': None, 'TM': 1, 'TF': None, 'TP': None, 'TJ': None, 'T2': None,
+                'TG': None, 'TX': None, 'TH': None, 'TK': 2, 'TC1': 2, 'TC2': 2, 'TL': 1}
+CACHEABLE = {n: n not in ('TN', 'TM', 'TK') for n in TYPES}
